@@ -28,7 +28,21 @@ def f3():
     return 'f3'
 
 
-class V(pjrpc.server.ViewMixin):
+class Auditable:
+    """a plain mixin (not a view) contributing a public method"""
+    def audit(self):
+        return 'V.audit'
+
+    def _audit_private(self):
+        return 'V._audit_private'
+
+
+class BaseV(pjrpc.server.ViewMixin):
+    def inh(self):
+        return 'V.inh'
+
+
+class V(Auditable, BaseV):
     data = 5                     # non-callable
 
     def __init__(self, context=None):
@@ -52,8 +66,8 @@ class V(pjrpc.server.ViewMixin):
 
 
 FUNCS = dict(f1=f1, f2=f2, f3=f3)
-VIEW_PUBLIC = {'pub1': 'V.pub1', 'pub2': 'V.pub2', 'st': 'V.st'}
-VIEW_FORBIDDEN = ['_hidden', '__secret__', 'data', '__methods__', '__init__', '__class__']
+VIEW_PUBLIC = {'pub1': 'V.pub1', 'pub2': 'V.pub2', 'st': 'V.st', 'inh': 'V.inh', 'audit': 'V.audit'}
+VIEW_FORBIDDEN = ['_hidden', '__secret__', 'data', '__methods__', '__init__', '__class__', '_audit_private']
 PREFIXES = [None, 'a', 'a.b']
 
 # primitive operations (merge is added dynamically)
